@@ -105,3 +105,31 @@ def holds(fn: ast.AST, node: ast.AST, text: str, truth: bool = True) -> bool:
     want = set(canon_fact(e, truth))
     have = conditions_at(fn, node)
     return want <= have
+
+
+def expand_locals(expr: ast.expr, fn: ast.AST, depth: int = 2) -> ast.expr:
+    """copy of expr with single-definition locals of fn replaced by their defining expression (depth-limited): a condition
+    computed into a variable first reads the same as the inline condition"""
+    import copy
+
+    defs: dict = {}
+    for n in ast.walk(fn):
+        if isinstance(n, ast.Assign) and len(n.targets) == 1 and isinstance(n.targets[0], ast.Name):
+            defs.setdefault(n.targets[0].id, []).append(n.value)
+        elif isinstance(n, ast.AnnAssign) and isinstance(n.target, ast.Name) and n.value is not None:
+            defs.setdefault(n.target.id, []).append(n.value)
+        elif isinstance(n, (ast.For, ast.AugAssign, ast.With, ast.NamedExpr)):
+            for t in ast.walk(n.target if hasattr(n, "target") else n):
+                if isinstance(t, ast.Name) and isinstance(getattr(t, "ctx", None), ast.Store):
+                    defs.setdefault(t.id, []).append(None)
+
+    def sub(e, d):
+        class R(ast.NodeTransformer):
+            def visit_Name(self, n):
+                v = defs.get(n.id)
+                if d > 0 and v and len(v) == 1 and v[0] is not None and isinstance(n.ctx, ast.Load):
+                    return sub(v[0], d - 1)
+                return n
+        return R().visit(copy.deepcopy(e))
+
+    return sub(expr, depth)
